@@ -180,17 +180,17 @@ type EnvOpts struct {
 }
 
 type Env struct {
-	O      EnvOpts
-	C      *gocbcore.SimCluster
-	Cfg    *config.Dcp
-	Client couchbase.Client
-	Meta   metadata.Metadata
-	Stream stream.Stream
-	Bus    EventBus.Bus
-	VBD    stream.VBucketDiscovery
-	Cons   *RecConsumer
-	EH     *RecHandler
-	StopCh chan struct{}
+	O       EnvOpts
+	C       *gocbcore.SimCluster
+	Cfg     *config.Dcp
+	Client  couchbase.Client
+	Meta    metadata.Metadata
+	Stream  stream.Stream
+	Bus     EventBus.Bus
+	VBD     stream.VBucketDiscovery
+	Cons    *RecConsumer
+	EH      *RecHandler
+	StopCh  chan struct{}
 	CollIDs map[uint32]string
 	RecMeta *RecMeta
 }
